@@ -17,16 +17,16 @@ CHECKS = {
         technique='Coq proof (induction over the divisor loop) + model/implementation correspondence by differential execution + independent oracle',
         design='7/C14'),
     'C01': dict(
-        text='PARTIAL. Theorems on the models: every recogniser leaves the cursor inside its input and reports extents inside it (block overshoot and quote back-step included), the unit scanner consumes between 1 and len bytes, the header lies inside the unit, the unit loop and the input rescan loop never exhaust their fuel (termination), channel lists never store beyond the announced capacity, and after every SCPI_Input call of every history (overrunning chunks, any handler scripts) the buffered length stays below the buffer length, so the terminating store is always inside (input_buffer_inv_history). What a model cannot exhibit -- real memory safety and UB of the compiled code -- is decided by running the ASan+UBSan build (exact-size heap buffers -- zero-length ones taken from a poisoned region --, poisoned unused tail of the input buffer via the SCPI_PARSER_VERIF hook, watchdog) in four build configurations on grammar-derived, mutated and raw byte streams in all chunkings with scripts applying every API; any sanitizer or watchdog event is the violation, with the case as replay.',
+        text='PARTIAL. Theorems on the models: every recogniser leaves the cursor inside its input and reports extents inside it (block overshoot and quote back-step included), the unit scanner consumes between 1 and len bytes, the header lies inside the unit, the unit loop and the input rescan loop never exhaust their fuel (termination), channel lists and the array readers never store beyond the announced capacity (array_reader_capacity, chan_entry_capacity), and after every SCPI_Input call of every history (overrunning chunks, any handler scripts) the buffered length stays below the buffer length, so the terminating store is always inside (input_buffer_inv_history). What a model cannot exhibit -- real memory safety and UB of the compiled code -- is decided by running the ASan+UBSan build (exact-size heap buffers -- zero-length ones taken from a poisoned region --, poisoned unused tail of the input buffer via the SCPI_PARSER_VERIF hook, watchdog) in four build configurations on grammar-derived, mutated and raw byte streams in all chunkings with scripts applying every API; any sanitizer or watchdog event is the violation, with the case as replay.',
         technique='Coq proof of cursor bounds / progress / termination on the models + sanitised differential execution in 4 build configurations (the memory-safety half is exploration, stated as such)', design='7/C01'),
     'C04': dict(
-        text='Theorems: the strtol model reads blanks, sign and decimal digits to exactly their value and the width conversion is exact in range (decint_exact_signed), #H/#Q/#B digit strings read to exactly their value (nondec_exact), the decimal-to-binary rounding model is round-to-nearest-even with the right binary exponent (bin_exp_correct, rounded_nearest, rounded_normal_range), every row of the generated unit table under every casing and every special / boolean name is found (unit_rows, specials, bool_names: evaluation over the tables regenerated from units.c). libc strtod/strtol and the FPU multiply are modelled, tied to glibc by the correspondence on grammar-generated literals; an independent exact-rational oracle judges the bits the handler received. White space inside a number is a recorded finding.',
+        text='Theorems: the strtol model reads blanks, sign and decimal digits to exactly their value and the width conversion is exact in range (decint_exact_signed), #H/#Q/#B digit strings read to exactly their value (nondec_exact), strtod_exact_literal / strtod_bits_literal: on sign? digits [. digits] [E sign? digits] followed by anything that cannot continue it the strtod model extracts exactly the written mantissa digits and exponent, so the value it rounds is mantissa * 10^(exponent - fraction digits) (the clamp of absurd exponents depends on the digit count and cannot change the result), and that rounding is round-to-nearest-even with the right binary exponent (bin_exp_correct, rounded_nearest, rounded_normal_range); read_uint_item: through SCPI_Parameter and the 32-bit reader an in-range unsigned literal inside a list decodes to exactly its value, every row of the generated unit table under every casing and every special / boolean name is found (unit_rows, specials, bool_names: evaluation over the tables regenerated from units.c). libc strtod/strtol and the FPU multiply are modelled, tied to glibc by the correspondence on grammar-generated literals; an independent exact-rational oracle judges the bits the handler received. White space inside a number is a recorded finding.',
         technique='Coq proof (exactness lemmas, finite evaluation over generated tables) + correspondence + exact-rational oracle; libc modelled', design='7/C04'),
     'C05': dict(
-        text='Theorems param_*_fail (every typed reader: FALSE implies an error was queued or the parameter was optional and absent; integer readers have the one recorded extra case), unit_fail_silent / unit_fail_reported / unit_unread / unit_clean (the -200 / -108 decisions of processCommand, exhaustive), ppd_decimal / all_data_list (a list of decimal items with any blanks around items and commas is scanned whole). Tied by scenarios pairing every reader with every data class; an independent table of (reader, class) -> error judges the implementation; malformed lists and the return value of SCPI_Input are judged by the oracle. Two recorded findings (trailing comma; integer reader on ".5").',
+        text='Theorems param_*_fail (every typed reader: FALSE implies an error was queued or the parameter was optional and absent; integer readers have the one recorded extra case), unit_fail_silent / unit_fail_reported / unit_unread / unit_clean (the -200 / -108 decisions of processCommand, exhaustive), ppd_decimal / all_data_list (a list of decimal items with any blanks around items and commas is scanned whole), parameter_item (the k-th SCPI_Parameter call delivers the k-th item whole -- the literal without the blanks --, queues nothing and leaves the cursor for the next call), read_uint_array / array_reader_result (the array readers read element by element, stop quietly at the end of the list, and report FALSE only when mandatory and the first element failed), message_reads_array (vertical slice: for a message HEADER blanks v1 , v2 ... newline whose header selects a command reading a uint32 array, SCPI_Parse runs that handler once with exactly the written values, queues nothing and returns TRUE). Tied by scenarios pairing every reader with every data class; an independent table of (reader, class) -> error judges the implementation; malformed lists and the return value of SCPI_Input are judged by the oracle. Two recorded findings (trailing comma; integer reader on ".5").',
         technique='Coq proof (case analysis per reader, unit-level decisions, list scanning) + correspondence + reader-table oracle', design='7/C05'),
     'C07': dict(
-        text='Theorems rt_unsigned / rt_signed (what the integer result writers emit is read back by the strtol/strtoul models to the same value, every value of the width, bases 2/8/10/16), result_text_lexes / rt_text_copy (the quoted text is one string token and the copy loop returns the text), block_header_block / result_block_lexes (header + data is one block token whose payload is the data, every length < 10^9). Tied and completed by a two-phase round trip on the implementation for all result types incl. 8/16-bit, floats, doubles and ASCII arrays.',
+        text='Theorems rt_unsigned / rt_signed (what the integer result writers emit is read back by the strtol/strtoul models to the same value, every value of the width, bases 2/8/10/16), result_text_lexes / rt_text_copy (the quoted text is one string token and the copy loop returns the text), block_header_block / result_block_lexes (header + data is one block token whose payload is the data, every length < 10^9), rt_uint_array (the canonical digits of non-zero 32-bit values joined by commas -- what the ASCII array writer emits -- are read back by the array reader element by element to the same values). Tied and completed by a two-phase round trip on the implementation for all result types incl. 8/16-bit, floats, doubles and ASCII arrays.',
         technique='Coq proof (round-trip lemmas composing formatter and reader models) + two-phase round-trip execution on implementation and model', design='7/C07'),
     'C08': dict(
         text='PARTIAL. Theorems pending_is_prefix (the only thing carried between input calls is the unprocessed bytes), quiet_chunk_accumulates, split_before_message, chunks_before_message (any split before the first completed message is invisible; byte-at-a-time delivery of a message equals one call). The remaining lexical statement (units found in a buffer are found again after bytes are appended) is false for a line terminator inside a quoted string (recorded finding) and is otherwise decided by comparing every chunking of generated streams on the implementation with byte-at-a-time delivery, and with the model.',
@@ -35,7 +35,7 @@ CHECKS = {
         text='Theorems message_isolated / input_isolated / inputs_isolated: two model contexts that agree on command table, input buffer, error queue and trace and differ arbitrarily in every scratch field produce the same return value, the same events and agreeing contexts, for one message, one input call and any sequence of calls with any handler scripts. Tied by running B after A and B alone on the implementation and comparing B\'s events.',
         technique='Coq proof (non-interference over the scratch fields) + paired execution oracle', design='7/C09'),
     'C15': dict(
-        text='Theorems number_to_str_bounded (no store outside the buffer for every value, unit and length), fp_to_str_all / double_to_str_bounded / float_to_str_bounded (never more than len bytes, NUL whenever a byte is available, length returned = characters stored, nothing read for len 0), int2str_exact (C14). Tied by direct calls with exact-size heap buffers under ASan for every length 0..40 on the printf and custom-formatter builds; SCPI_dtostre\'s final copy and SCPI_ParamCopyText are judged by the sanitised run and the oracle.',
+        text='Theorems number_to_str_bounded (no store outside the buffer for every value, unit and length), fp_to_str_all / double_to_str_bounded / float_to_str_bounded (never more than len bytes, NUL whenever a byte is available, length returned = characters stored, nothing read for len 0), int2str_exact (C14), param_text_bounded / param_text_len0 (SCPI_ParamCopyText: every byte is stored below the stated length, the NUL only when a byte remains for it, nothing at all for length 0). Tied by direct calls with exact-size heap buffers (zero-length ones from a poisoned region) under ASan for every length 0..40 on the printf and custom-formatter builds; SCPI_dtostre\'s final copy is judged by the sanitised run and the oracle.',
         technique='Coq proof (checked-write models of strncpy/strncat/snprintf) + sanitised execution with exact-size buffers + oracle', design='7/C15'),
     'C16': dict(
         text='PARTIAL. Theorems rne_nearest / rne_tie_even / sig_digits_nearest(_closed) / ilog10_correct / dec64_in_range: the %g model rounds the exact binary value to P significant digits to nearest, ties to even, with the right decimal exponent for every finite double. glibc\'s snprintf is modelled (tied bit-for-bit by the correspondence; CPython\'s correctly rounded formatting is a second, independent oracle). For the USE_CUSTOM_DTOSTRE build the layout stage is modelled and compared on the digits scpi_ecvt produced; scpi_ecvt\'s floating-point digit generation is not modelled and its one-unit claim is decided by the oracle only (a recorded finding at precisions 14/15 and large exponents).',
@@ -44,7 +44,7 @@ CHECKS = {
         text='Theorems swap16/32/64_bytes (byte reversal), array_bytes (payload = elements in the requested order for sizes 1/2/4/8, both formats, both host orders), array_counts_once, block_header_eq (header = #, digit count, decimal length for every n < 10^9), result_block_lexes. array_result_bytes: inside any handler, at any point of a response, a binary array result is one item -- delimiter, block header, every element in the requested byte order -- on either host order and either code path (one block call / header + one data call per element, empty arrays included); array_steps: in ASCII format every element is an item of its own. Streaming (bytes concatenated, item counted exactly when complete, over-length data refused with -310) is in ParserModel and tied by scenarios with every split; an independent encoder judges the implementation.',
         technique='Coq proof (bit-level swap lemmas, header lemma from C14) + correspondence + independent encoder oracle', design='7/C17'),
     'C19': dict(
-        text='Theorems numlist_walk_spec / numlist_spec (every non-empty list of entries a or a:b rendered with single commas: entry i is reported OK with exactly the offsets and lengths of its literals, NO_MORE beyond the end), channel_range_cap / chanlist_entry_cap (never more values than the capacity, for every body), channel_spec_walk (dimension walk of one specification), chanlist_walk_spec / chanlist_spec (every non-empty channel list @e1,e2,... of specifications a!b!c and ranges spec:spec of equal dimensions: entry i is OK with its range flag, dimension count and the values of every dimension that fits the capacity, no error; NO_MORE without error at and beyond the end). The negative clause (malformed content) is decided by the oracle (reference scanner from the SCPI-99 grammar) on all short bodies and generated lists.',
+        text='Theorems numlist_walk_spec / numlist_spec (every non-empty list of entries a or a:b rendered with single commas: entry i is reported OK with exactly the offsets and lengths of its literals, NO_MORE beyond the end), channel_range_cap / chanlist_entry_cap (never more values than the capacity, for every body), channel_spec_walk (dimension walk of one specification), chanlist_walk_spec / chanlist_spec (every non-empty channel list @e1,e2,... of specifications a!b!c and ranges spec:spec of equal dimensions: entry i is OK with its range flag, dimension count and the values of every dimension that fits the capacity, no error; NO_MORE without error at and beyond the end), chan_entry_error / num_entry_error / not_an_expression / chan_entry_capacity (applied to a parameter inside a handler: ERROR is reported exactly when -170 -- or -104 for a non-expression -- is queued, and never more than the announced capacity of values per end of a range is handed back). The negative clause (malformed content) is decided by the oracle (reference scanner from the SCPI-99 grammar) on all short bodies and generated lists.',
         technique='Coq proof (list walk induction, capacity bound) + correspondence (exhaustive short bodies) + reference-grammar oracle', design='7/C19'),
 
     'C02': dict(
@@ -66,7 +66,7 @@ CHECKS = {
         text='Theorems classify (all 65536 codes, by evaluation over the table regenerated from error.c) and srq_step (callback only with MSS set, always when MSS rises). Latching and stickiness are checked by the oracle on the implementation and by correspondence with the register model.',
         technique='Coq proof (finite evaluation over the generated table + step lemma) + correspondence + oracle', design='7/C12'),
     'C13': dict(
-        text='Per-recogniser theorems on the lexer model: decimal numbers, white space, character data, single characters and flat expressions consume exactly the longest prefix of their 488.2 grammar (or nothing); nondecimal numbers likewise; strings and definite-length blocks are sound and complete for their delimited forms; compound and common headers are complete and sound (compound_sound / common_sound: whatever is reported as a header is :?mnemonic(:mnemonic)*?? resp. *mnemonic?? followed by something that cannot continue it); whole units header-blank-decimal-list-terminator are complete; the line terminator is maximal. Tied by all strings up to length 4/5 over one representative per character class (every recogniser on every string) plus generated long tokens; independent regular-expression references judge the implementation.',
+        text='Per-recogniser theorems on the lexer model: decimal numbers, white space, character data, single characters and flat expressions consume exactly the longest prefix of their 488.2 grammar (or nothing); nondecimal numbers likewise; strings and definite-length blocks are sound and complete for their delimited forms; compound and common headers are complete and sound (compound_sound / common_sound: whatever is reported as a header is :?mnemonic(:mnemonic)*?? resp. *mnemonic?? followed by something that cannot continue it); whole units header-blank-decimal-list-terminator are complete (unit_complete_full: with consumed length and terminator kind) and units with a reported header are sound (unit_sound_compound / unit_sound_common: blanks, a well-formed header, delimited by a semicolon, a line terminator or the end of input); the line terminator is maximal. Tied by all strings up to length 4/5 over one representative per character class (every recogniser on every string) plus generated long tokens; independent regular-expression references judge the implementation.',
         technique='Coq proof (maximal-munch lemmas per recogniser) + correspondence (exhaustive short strings) + grammar oracle', design='7/C13'),
     'C18': dict(
         text='Theorems quoted_part / quoted_bounded / quoted_prefix / quoted_maximal: for every description and text the model of SCPI_ResultError emits code,"q" with every quote doubled, |q| <= 255, unquote(q) a prefix of description;text, cut as late as the limit allows. Tied on the malloc build directly and through push + SYST:ERR? on the malloc and static-heap builds; an independent 488.2 string reader judges the implementation.',
